@@ -161,3 +161,14 @@ Example px_fix_run_mixed_computed :
   /\ fl_damaged (get_fl (r_flags (out_st out)) (0, 1%N)) = true /\ fs_find (r_fs (out_st out)) 0 1%N = None
   /\ out_fail out = true.
 Proof. vm_compute. repeat split; reflexivity. Qed.
+
+(* file 3 (disk 1) shares stripe 0 with the lost file 1 and is intact: not touched, whatever happens to file 1 *)
+Example px_fix_run_intact :
+  let out := check_run w_hashf w_padz w_truncf 1024 2 false w_newino 999 x_fix px_c px_par px_fs2 [] (seq 0 2) in
+  fs_find (r_fs (out_st out)) 1 3%N = fs_find px_fs2 1 3%N /\ fl_damaged (get_fl (r_flags (out_st out)) (1, 3%N)) = false.
+Proof.
+  cbn zeta.
+  apply (run_fix_intact_untouched w_hashf w_padz w_truncf 1024 2 w_newino 999 x_fix px_c 2 px_fs2 px_par [] x_plain_fix eq_refl px_geom eq_refl eq_refl (le_n 2)
+           px_objs_ok 0 1 px_f3 0 _ eq_refl).
+  split; [cbn; lia|]. intros p i b H. px_inv H. exists 13%N. split; [reflexivity | intros _; reflexivity].
+Qed.
